@@ -9,7 +9,9 @@ import (
 	"fmt"
 	"os"
 	"path/filepath"
+	"reflect"
 	"regexp"
+	"slices"
 	"sort"
 	"strconv"
 	"strings"
@@ -213,4 +215,29 @@ func H_selftest_refprev() {
 		g2, l2, e2 := vxRefPrev(id, path)
 		vxrt.Assert((e1 == nil) == (e2 == nil) && vxrt.Eq(g1, g2) && l1 == l2, "selftest:reference-reader-agrees")
 	}
+}
+
+// H_selftest_deepequal: the model of reflect.DeepEqual and of the address of a slice cell agree
+// with the real ones (the asserted facts hold natively; sample validation replays them).
+func H_selftest_deepequal() {
+	c := vxrt.Text("c", 1)
+	var nilMap map[string]any
+	var nilSlice []any
+	a := map[string]any{"k": []any{"x", 1.5, nil, true}, "s": c}
+	b := map[string]any{"s": c, "k": []any{"x", 1.5, nil, true}}
+	vxrt.Assert(reflect.DeepEqual(a, b), "selftest:deepequal-maps")
+	b["k"].([]any)[1] = 2.5
+	vxrt.Assert(!reflect.DeepEqual(a, b), "selftest:deepequal-nested-difference")
+	vxrt.Assert(reflect.DeepEqual(nil, nil) && !reflect.DeepEqual(nil, nilMap) && !reflect.DeepEqual(nilMap, map[string]any{}), "selftest:deepequal-nil")
+	vxrt.Assert(!reflect.DeepEqual(nilSlice, []any{}) && reflect.DeepEqual([]any{}, []any{}), "selftest:deepequal-nil-slice")
+	vxrt.Assert(!reflect.DeepEqual(1, 1.0) && !reflect.DeepEqual("1", 1) && reflect.DeepEqual(any(c), any(string([]byte{c[0]}))), "selftest:deepequal-types")
+	x, y := 1, 1
+	vxrt.Assert(reflect.DeepEqual(&x, &y) && reflect.DeepEqual(struct{ A []int }{[]int{1}}, struct{ A []int }{[]int{1}}), "selftest:deepequal-pointers-structs")
+	vxrt.Assert(reflect.DeepEqual(c == "q", c[0] == 'q'), "selftest:deepequal-symbolic")
+	// slices.Insert relies on comparing addresses of slice cells (overlap test)
+	names := []string{"b", "d"}
+	names = slices.Insert(names, 1, "c")
+	names = slices.Insert(names, 0, names[1:]...)
+	vxrt.Assert(strings.Join(names, ",") == "c,d,b,c,d", "selftest:slices-insert")
+	vxrt.Assert(len(names) == 5 && names[0] == "c" && names[2] == "b", "selftest:slices-insert-self")
 }
